@@ -16,7 +16,8 @@ echo "== demo WITHOUT patch (must pass)"; sh -c "$DEMO" >/tmp/seedchk-$ID.nopatc
 git apply $DIR/patch.diff || { echo "PATCH DOES NOT APPLY"; exit 2; }
 echo "== build"; go build ./... 2>&1 | tail -3
 echo "== demo WITH patch (must fail)"; sh -c "$DEMO" >/tmp/seedchk-$ID.patch.log 2>&1; echo "rc=$?"
-for p in "$@"; do echo "== go test $p (with patch)"; go test -vet=off -count=1 -timeout 25m $p 2>&1 | tail -3; done
+git status --short | grep '^??' | awk '{print $2}' | xargs -r rm -rf
+for p in "$@"; do echo "== go test $p (with patch, demo removed)"; go test -vet=off -count=1 -timeout 25m $p 2>&1 | tail -3; done
 # remove the demo file(s) again so the check sees only the source change
 git status --short | grep '^??' | awk '{print $2}' | xargs -r rm -rf
 cd $SV
